@@ -397,6 +397,16 @@ theorem C09_addExpr_same_as_disabled (ext : Nat → Nat) (m : Mgr) (hD : DynInv 
   obtain ⟨r0, m0', he0, hp0⟩ := C09_addExpr_transparent ext _ hD0 s t hp hM hheld
   exact ⟨r, m', r0, m0', he, he0, hp1.doc.1, hp0.doc.1, fun σ => by rw [hp1.doc.2 σ, hp0.doc.2 σ]⟩
 
+/-- C09 `add_expr` from the text of a tree: the canonical text of any lexically well-formed,
+meaningful tree — with the parentheses the precedence table requires and any redundant ones
+(`ex`) — is given the meaning of the tree, reordering enabled or not (C05's round trip
+`parse_tokenize_spell` composed with the theorem above) -/
+theorem C09_addExpr_text_transparent (ext : Nat → Nat) (m : Mgr) (hD : DynInv ext m)
+    (ex : Ast → Bool) (t : Ast) (hwf : t.WF) (hlex : t.LexWF) (hM : Meaningful m.tbl t)
+    (hheld : ∀ u ∈ t.atNodes, HeldX ext u) :
+    ∃ r m', addExpr (spell (printG ex t)) m = (.ok r, m') ∧ DynPostG ext (ExprDoc t) m r m' :=
+  C09_addExpr_transparent ext m hD _ t (parse_tokenize_spell ex t hwf hlex) hM hheld
+
 /-- the formula of the non-vacuity example: a quantifier, `@n`, `~`, connectives, `ite(…)`, `\S` -/
 def exFormula : String := "\\E a: (@4 | ~ b) & ite(a, b, TRUE) & (\\S b / a: a)"
 
